@@ -304,6 +304,27 @@ def identity_and_round_trips(ctx: RunCtx) -> BoundedResult:
                     if back != v or back2 != v or r1 != r2:
                         res.failures.append({"what": f"{backend}/{ser}: value {str(v)[:40]!r} does not round-trip (or equal content gives different references)",
                                              "finding_key": f"{backend}:{ser}:roundtrip"})
+                # values whose TYPE matters: enum members alone and inside containers must come back as the same members (not as bare ints / strings)
+                from . import verif_tasks as vt
+
+                def deep_typed(x):
+                    if isinstance(x, (list, tuple)):
+                        return [deep_typed(y) for y in x]       # list/tuple distinction is not part of this check (JSON has no tuples)
+                    if isinstance(x, dict):
+                        return {str(k): deep_typed(v) for k, v in x.items()}
+                    return (type(x).__name__, repr(x))
+                typed_values = [vt.Priority.HIGH, vt.Level.ERROR, vt.Color.RED, [vt.Priority.HIGH], [vt.Priority.LOW, 10, "x"], [vt.Level.ERROR, "error"],
+                                [vt.Color.BLUE, 1], {"p": vt.Priority.HIGH, "l": [vt.Level.INFO]}, [[vt.Priority.HIGH]], [1, True, 1.0, None]]
+                for v in typed_values:
+                    n += 1
+                    try:
+                        back = cds.resolve(cds.serialize(v))
+                    except Exception as e:
+                        res.failures.append({"what": f"{backend}/{ser}: {type(e).__name__} on {v!r}", "finding_key": f"{backend}:{ser}:exception"})
+                        continue
+                    if deep_typed(back) != deep_typed(v):
+                        res.failures.append({"what": f"{backend}/{ser}: {v!r} comes back as {back!r} (type of a member lost)", "input": repr(v),
+                                             "finding_key": f"{ser}:typed-roundtrip"})
                 # whole argument mappings: every argument is serialised on its own - values that merely compare equal (1 == True == 1.0,
                 # 0 == False, 0.0 == -0.0) must not be conflated; the identity of the call must tell them apart as well
                 def typed(x):
